@@ -87,7 +87,7 @@ STRING_RANK = {v: i for i, v in enumerate(sorted(VERSIONS))}  # what a naive lex
 LPROJECT = 'latest-prj'
 STAMP = datetime.datetime(2020, 1, 1, 12, 0, 0)
 
-logging.disable(logging.INFO)  # the refresh step logs every update at INFO
+logging.disable(logging.WARNING)  # the refresh step logs every update at INFO, a failing pick at WARNING
 
 
 # ---- scratch registries --------------------------------------------------------------------------------------------
@@ -479,7 +479,8 @@ def latest_spec(draw):
     if configured is not None:
         for r in range(nreg):
             publish(r, configured)
-            commit(r, configured)
+            if draw(st.integers(0, 9)) < 7:  # else: the configured release is still untrained when first asked for
+                commit(r, configured)
     elif draw(st.integers(0, 9)) < 8:
         v = draw(st.sampled_from(pool))
         publish(0, v)
@@ -516,6 +517,9 @@ def latest_spec(draw):
 
 
 # ---- Latest: check -------------------------------------------------------------------------------------------------------
+PENDING = 'pending'  # model value: selected while the configured release had no generation yet
+
+
 class _StubThread:
     """Stands for threading.Thread while a Latest selector is constructed: records the target, never runs anything."""
 
@@ -631,7 +635,13 @@ def check_latest(ctx, spec):
                 cache[r] = pick(r)
                 if cache[r] is not None:
                     _classify_pick(classes, gens[r], published[r], cache[r], configured)
-            if cache[r] is None:
+                elif configured is not None and configured in published[r]:
+                    # a configured release without generations: the selector hands out a lazy handle (or raises) - not
+                    # judged; but from now on this registry is being refreshed like any other
+                    cache[r] = PENDING
+            if cache[r] == PENDING:
+                classes.add('latest:select-pending')
+            elif cache[r] is None:
                 classes.add('latest:select-empty')
             elif cache[r] != pick(r):
                 classes.add('latest:stale-select')
@@ -639,12 +649,17 @@ def check_latest(ctx, spec):
                 nontrivial = True
                 classes.add('latest:commit-between-selects')
             last_select_gens[r] = list(gens[r])
-            plan.append((op, r, arg, cache[r], warm[r]))
+            plan.append((op, r, arg, cache[r], None if warm[r] == PENDING else warm[r]))
             warm[r] = None
         else:
             warm = [None] * nreg
             for q in range(nreg):
-                if cache[q] is not None:
+                if cache[q] == PENDING:
+                    if pick(q) is not None:
+                        cache[q] = pick(q)
+                        classes.add('latest:pending-resolved')
+                        nontrivial = True
+                elif cache[q] is not None:
                     new = pick(q)
                     if new != cache[q]:
                         classes.add('latest:refresh-moves')
@@ -676,6 +691,19 @@ def check_latest(ctx, spec):
                 _publish(ctx, directories[r], LPROJECT, VERSIONS[arg], exp)
             elif op == 'commit':
                 _commit(directories[r], LPROJECT, VERSIONS[arg])
+            elif op == 'select' and exp == PENDING:
+                try:
+                    selector.select(directories[r], None, stats)
+                except (asset.Level.Listing.Empty, asset.Level.Invalid):
+                    continue
+                except Exception as exc:
+                    ctx.fail_exc(spec, 'latest-select-raises', exc, [mode, 'untrained-release'])
+                    return
+                if not selected:
+                    selected = True
+                    if not (stubs and stubs[-1].started == 1):
+                        ctx.fail(spec, 'latest-refresher', 'not-started', 'refresher not started by the first select', [mode, 'untrained-release'])
+                        return
             elif op == 'select':
                 try:
                     got = selector.select(directories[r], None, stats)
@@ -726,12 +754,13 @@ def check_latest(ctx, spec):
                     ctx.fail(spec, 'latest-refresher', 'restarted', f'refresher started {stubs[-1].started} times', [mode])
                     return
             else:
-                if not exp or not stubs:
+                if not exp or not stubs or not stubs[-1].started:
                     continue  # the refresher only runs once a select succeeded
                 try:
                     slept = _tick(stubs[-1])
                 except Exception as exc:
-                    ctx.fail_exc(spec, 'latest-refresh-raises', exc, [mode])
+                    # an exception leaving the loop ends the refresher thread for good
+                    ctx.fail_exc(spec, 'latest-refresh-raises', exc, [mode] + (['untrained-release'] if 'latest:select-pending' in classes else []))
                     return
                 if slept != [spec['refresh']]:
                     ctx.fail(spec, 'latest-refresh', 'interval', f'refresh={spec["refresh"]} but the step slept {slept}', [mode])
